@@ -200,6 +200,10 @@ func registerIntrinsics(in *Interp) {
 		}
 		return done(v)
 	}
+	// verifConcretize forks over every feasible value of a (small-range) symbolic integer
+	I["verif:verifConcretize"] = func(st *State, fr *Frame, a []Value, _ ssa.Value) (Value, int) {
+		return done(mkI64(int64(st.concrete(a[0].(Int)))))
+	}
 	I["verif:verifAssume"] = func(st *State, fr *Frame, a []Value, _ ssa.Value) (Value, int) {
 		c := a[0].(Bool)
 		if c.T != nil {
